@@ -24,7 +24,7 @@ CLAIMS = {
    text="Theorem C01_census_exact (via scan_correct, ~2500 lines of Coq): for every well-formed repository (objects as a creation history), every root selection and every enumeration satisfying the contract, the model of ScanRepositoryUsingGraph returns the saturated counts/sizes of exactly the set reachable over parent/tree/entry(non-gitlink)/tag edges; C01_reachable_is_reach ties the executable reachable set to the inductive relation. The model is tied to the code by CLI runs (fakegit with random legal orders, real git loose/packed) compared field by field with model and specification.",
    note=SCAN_NOTE, technique="Coq proof (invariant of the deferred-listener machine + permutation invariance) + differential correspondence via fakegit/real git"),
  "C02": dict(
-   text="Theorem C02_maxima: the four max_* fields equal the saturated maxima over reachable objects of the kind, for every enumeration order (position of the maximum, ties); maxN characterised as an attained upper bound. Correspondence runs place extremal objects first/last/middle with ties.",
+   text="Theorem C02_maxima: the four max_* fields equal the saturated maxima over reachable objects of the kind, for every enumeration order (position of the maximum, ties); maxN characterised as an attained upper bound. C02_record*_generated: HistorySize.recordBlob/recordTree/recordCommit/recordTag/recordReference, regenerated from sizes/sizes.go on every run (setPath calls become flags), equal the model's record function and raise exactly the citation flags of the path-slot model. Correspondence runs place extremal objects first/last/middle with ties, repeated parents, wide trees and scale boundaries.",
    note=SCAN_NOTE, technique="Coq proof + differential correspondence"),
  "C03": dict(
    text="Theorems C03_depths, C03_cdepth_is_longest_chain, C03_tdepth_is_longest_chain, C03_no_panic: history depth = length of the longest parent chain (existence + maximality over an inductive chain predicate), tag depth likewise, for every contract-satisfying enumeration (timestamps do not occur in the model; they only select which legal order git uses) and every tag delivery order. Correspondence: DAG shapes with skewed dates under real git, all tag permutations under fakegit.",
